@@ -58,6 +58,12 @@ func init() {
 }
 
 func init() {
+	iterMethodValues["(log/slog.Record).Attrs"] = func(fv *FuncVerifier, st *State, env *Env, sel *ast.SelectorExpr) iterInfo {
+		// slog.Record.Attrs(f) calls f on each attribute of the record: no side effect of its own (ASSUMED, log/slog);
+		// the attributes are unconstrained
+		fv.externUsed["(log/slog.Record).Attrs (assumed: calls the callback for each attribute, no other effect)"] = true
+		return iterInfo{val: fv.fresh("attrsiter", SRef), pure: true}
+	}
 	iterMethodValues["(*sync.Map).Range"] = func(fv *FuncVerifier, st *State, env *Env, sel *ast.SelectorExpr) iterInfo {
 		// Range yields exactly the stored pairs, each once, in an ARBITRARY order
 		w := fv.w
@@ -93,6 +99,11 @@ func externPolicy(pkgPath, full string) string {
 		"reflect", "errors", "slices", "maps", "regexp", "golang.org/x/text/cases", "golang.org/x/text/language",
 		"github.com/octohelm/x/types", "github.com/octohelm/x/reflect", "github.com/octohelm/x/ptr", "github.com/octohelm/x/context", "go/format", "math":
 		return "pure"
+	case "time":
+		if strings.HasPrefix(full, "(time.Duration).") {
+			return "pure" // value methods of a duration: observers
+		}
+		return "unknown"
 	case "go/ast":
 		if strings.HasSuffix(full, ".Inspect") || strings.HasSuffix(full, ".Walk") || strings.HasSuffix(full, "SortImports") {
 			return "unknown"
